@@ -212,7 +212,7 @@ class NMAP(Application, discriminator="nmap"):
 
         ip_addresses = self._explode_ip_address_network_array(target_ip_address)
 
-        for ip_address in ip_addresses:
+        for ip_address in sorted(ip_addresses):  # a set: iterate in address order, not in hash order
             # Prevent ping scan on this node
             if self.software_manager.node.ip_is_network_interface(ip_address=ip_address):
                 continue
@@ -369,7 +369,7 @@ class NMAP(Application, discriminator="nmap"):
             table.align = "l"
             table.title = f"{self.software_manager.node.config.hostname} NMAP Port Scan ({scan_type})"
         self.sys_log.info(f"{self.name}: Starting port scan")
-        for ip_address in ip_addresses:
+        for ip_address in sorted(ip_addresses):  # a set: iterate in address order, not in hash order
             # Prevent port scan on this node
             if self.software_manager.node.ip_is_network_interface(ip_address=ip_address):
                 continue
